@@ -620,7 +620,12 @@ let () =
                  let before = Hashtbl.find_opt Monitor.snaps i in
                  Monitor.on_local i impl ~is_write:true;
                  Monitor.on_write_model i kind k v before impl
-             | "GC" | "HB" -> Monitor.on_local (next_int mc) impl ~is_write:false
+             | "GC" ->
+                 let i = next_int mc in
+                 let before = Hashtbl.find_opt Monitor.snaps i in
+                 Monitor.on_local i impl ~is_write:false;
+                 Monitor.on_gc_model i before impl
+             | "HB" -> Monitor.on_local (next_int mc) impl ~is_write:false
              | "PROC" ->
                  let i = next_int mc in
                  let m = parse_message mc in
@@ -628,7 +633,13 @@ let () =
              | "EVAL" -> Monitor.on_eval (next_int mc) impl
              | "TICK" -> Monitor.on_tick impl
              | "SYN" -> Monitor.on_syn (next_int mc) impl
-             | "CATCHUP" -> let i = next_int mc in let m = next_id mc in Monitor.on_catchup ~member:m i impl
+             | "CATCHUP" ->
+                 let i = next_int mc in
+                 let m = next_id mc in
+                 let _mx = next_n mc in
+                 let _gc = next_n mc in
+                 let kvs = parse_catchup_kvs mc !world.w_now in
+                 Monitor.on_catchup ~member:m ~supplied:kvs i impl
              | "SELECT" ->
                  (* C17 on the implementation's own answer: dead peers outnumber live ones => a dead
                     peer is contacted; no live peer and some seed => a seed is contacted *)
